@@ -58,6 +58,12 @@ inductive Fault where
       re-composed to `h!n`, or a supplied `__name`): all new items are unregistered and `false` is
       returned (the name check between `CommitItems` and `ActivateItems`, after 86ebd6a) -/
   | nameMismatch
+  /-- the same for a Service: the committed object (registered under the name `committed`, e.g. `h!n` for the
+      requested `h!n!x`: the surplus part is cut off when the name is taken apart) has been entered into its host's
+      service map by `Service::OnAllConfigLoaded` (service.cpp:60-75) before the name check; the rollback
+      (`item->Unregister()`) never calls `Host::RemoveService` (only `Service::Stop(runtimeRemoved)` does, edf9289):
+      the rolled-back service stays resolvable through its host (F-C17k) -/
+  | nameMismatchSvc (committed : Key)
   /-- `ignore_on_error`: the item was dropped silently during commit; no object, `true` returned -/
   | ignored
   /-- `ActivateItems` throws after the object was committed (an object's `Start()` throws: F-C17i, reproduced
@@ -65,6 +71,11 @@ inductive Fault where
       `CreateObject` reports failure, the deferred removal deletes the file, nothing is unregistered -/
   | activateThrows
 deriving DecidableEq, Repr
+
+/-- what a failed create leaves in a host's service map -/
+def Fault.leftInHostMap : Fault → List Key
+  | .nameMismatchSvc c => [c]
+  | _ => []
 
 inductive Res where
   | ok | fail | threw
@@ -104,6 +115,8 @@ def createObject (st : St) (k : Key) (path : Str) (parents : List Key) (fault : 
       let st2 := { st1 with items := k :: st1.items }
       if fault = .commitFails || !genOk st k generated then (dropFile { st2 with items := st2.items.filter (· ≠ k) }, .fail)
       else if fault = .nameMismatch then (dropFile { st2 with items := st2.items.filter (· ≠ k) }, .fail)
+      else if !fault.leftInHostMap.isEmpty then
+        (dropFile { st2 with items := st2.items.filter (· ≠ k), hostServices := fault.leftInHostMap ++ st2.hostServices }, .fail)
       else if fault = .ignored then (dropFile { st2 with items := st2.items.filter (· ≠ k) }, .ok)
       else
         -- commit: the object (and what apply rules generated for it) is instantiated and registered;
@@ -136,6 +149,22 @@ def removeObj (st : St) (o : Obj) : St :=
     -- `Service::Stop(true)` → `m_Host->RemoveService(this)`
     hostServices := st.hostServices.filter (· ≠ o.key) }
 
+/-- the catch block of `DeleteObjectHelper` (configobjectutility.cpp:374-382) after `object->Deactivate()` threw out of
+    `NotifyActive` (an `OnActiveChanged` subscriber failed): the object has been marked inactive and stopped
+    (`ConfigObject::Deactivate`, configobject.cpp:392-412: `SetActive(false)`, `Stop(runtimeRemoved)` — the generated
+    `Stop` untracks its references in the `DependencyGraph`, `Service::Stop(true)` leaves the host's service map),
+    nothing was unregistered, no file removed. -/
+def deactivateObj (st : St) (o : Obj) : St :=
+  { st with objs := st.objs.map (fun x => if x.key = o.key then { x with active := false } else x),
+            deps := st.deps.filter (fun e => e.1 ≠ o.key),
+            hostServices := st.hostServices.filter (· ≠ o.key) }
+
+/-- the tail of `DeleteObjectHelper` for one object.  `thr` = the object whose deactivation signal is answered by
+    an exception (the environment's choice; `none` = nothing goes wrong).  `Deactivate` returns early for an
+    object that is not active (configobject.cpp:399-400): no signal, no exception. -/
+def finishDelete (st : St) (o : Obj) (thr : Option Key) : St × Bool :=
+  if thr = some o.key && o.active then (deactivateObj st o, false) else (removeObj st o, true)
+
 /-- `Service::GetByNamePair`: what a new Comment/Downtime/Notification/Dependency for that service finds. -/
 def St.resolvesService (st : St) (k : Key) : Bool := st.hostServices.contains k
 
@@ -151,33 +180,34 @@ def deleteChild (rec : St → Obj → St) (s : St) (c : Key) : St :=
     through others) is not visited a second time.  The guard sits AFTER the refusal of a
     non-cascading delete with dependents.  Fuel bounds the recursion depth (every level adds a new
     object to `busy`, so the number of objects plus one is enough). -/
-def deleteHelper : Nat → St → Obj → Bool → List Key → St × Bool
-  | 0, st, o, _, _ => (removeObj st o, true)
-  | f + 1, st, o, cascade, busy =>
+def deleteHelper : Nat → St → Obj → Bool → List Key → Option Key → St × Bool
+  | 0, st, o, _, _, thr => finishDelete st o thr
+  | f + 1, st, o, cascade, busy, thr =>
     let ch := children st o.key
     if !ch.isEmpty && !cascade then (st, false)
     else if busy.contains o.key then (st, true)
     else
-      let st1 := ch.foldl (deleteChild (fun s co => (deleteHelper f s co cascade (o.key :: busy)).1)) st
-      (removeObj st1 o, true)
+      -- the result of the helper for a dependent is IGNORED (configobjectutility.cpp:351-353): F-C17j
+      let st1 := ch.foldl (deleteChild (fun s co => (deleteHelper f s co cascade (o.key :: busy) thr).1)) st
+      finishDelete st1 o thr
 
-/-- `DeleteObject` for an existing object. -/
-def deleteObject (st : St) (k : Key) (cascade : Bool) : St × Res :=
+/-- `DeleteObject` for an existing object.  `thr`: see `finishDelete`. -/
+def deleteObject (st : St) (k : Key) (cascade : Bool) (thr : Option Key := none) : St × Res :=
   match st.find k with
   | none => (st, .fail)
   | some o =>
     if !o.api then (st, .fail)
     else
-      let r := deleteHelper (st.objs.length + 1) st o cascade []
+      let r := deleteHelper (st.objs.length + 1) st o cascade [] thr
       (r.1, if r.2 then .ok else .fail)
 
 inductive Op where
   | create (k : Key) (path : Str) (parents : List Key) (fault : Fault) (api : Bool) (generated : List Key)
-  | delete (k : Key) (cascade : Bool)
+  | delete (k : Key) (cascade : Bool) (thr : Option Key := none)
 
 def step (st : St) : Op → St
   | .create k p ps f a g => (createObject st k p ps f a g).1
-  | .delete k c => (deleteObject st k c).1
+  | .delete k c t => (deleteObject st k c t).1
 
 def run (st : St) (ops : List Op) : St := ops.foldl step st
 
